@@ -3,11 +3,13 @@ package corr
 import (
 	"context"
 	"encoding/json"
+	"errors"
 	"fmt"
 	"net/http"
 	"net/http/httptest"
 	"runtime"
 	"strings"
+	"sync"
 	"sync/atomic"
 	"time"
 
@@ -888,6 +890,75 @@ func CloseAfterReconnect(res *fw.Result, seed int64) error {
 		}
 		res.Count("close-after-reconnect")
 		res.Eval(true, []interface{}{"close-after-reconnect", reconnects})
+	}
+	return nil
+}
+
+// OwnErr is a registered error type with a payload.
+type OwnErr struct{ Who string }
+
+func (e *OwnErr) Error() string { return "failed for " + e.Who }
+
+func (e *OwnErr) MarshalJSON() ([]byte, error) { return json.Marshal(e.Who) }
+func (e *OwnErr) UnmarshalJSON(b []byte) error { return json.Unmarshal(b, &e.Who) }
+
+type ownH struct{}
+
+func (ownH) Fail(who string) (int, error) {
+	time.Sleep(2 * time.Millisecond)
+	return 0, &OwnErr{Who: who}
+}
+
+// ErrorsOwn: "no call ever observes another call's result or error" for typed errors: concurrent calls fail
+// with the same registered code and different payloads; each caller, looking at its error after all calls have
+// returned, must still see its own payload.
+func ErrorsOwn(res *fw.Result, seed int64) error {
+	table := jsonrpc.NewErrors()
+	table.Register(jsonrpc.FirstUserCode+3, new(*OwnErr))
+	e, err := scen.NewEnv(seed+616, 0, jsonrpc.WithServerErrors(table))
+	if err != nil {
+		return err
+	}
+	defer e.Close()
+	e.Srv.Register("OW", ownH{})
+	for _, transport := range []string{"ws", "http"} {
+		var cl struct {
+			Fail func(string) (int, error)
+		}
+		url := e.WSURL()
+		if transport == "http" {
+			url = e.HTTPURL()
+		}
+		closer, err := jsonrpc.NewMergeClient(context.Background(), url, "OW", []interface{}{&cl}, nil, jsonrpc.WithErrors(table))
+		if err != nil {
+			return err
+		}
+		const N = 12
+		errs := make([]error, N)
+		var wg sync.WaitGroup
+		for i := 0; i < N; i++ {
+			wg.Add(1)
+			go func(i int) {
+				defer wg.Done()
+				_, errs[i] = cl.Fail(fmt.Sprintf("caller-%d", i))
+			}(i)
+		}
+		wg.Wait()
+		for i, err := range errs {
+			var oe *OwnErr
+			res.Count("errors-own." + transport)
+			res.Eval(true, []interface{}{"errors-own", transport, i})
+			switch {
+			case err == nil:
+				res.Add(fw.Finding{Kind: "monitor", Signature: "typed errors of concurrent calls transport=" + transport + " no error", Detail: fmt.Sprintf("call %d returned no error", i)})
+			case !errors.As(err, &oe):
+				res.Add(fw.Finding{Kind: "monitor", Signature: "typed errors of concurrent calls transport=" + transport + " not typed", Detail: fmt.Sprintf("call %d: error %T (%v) is not the registered type", i, err, err)})
+			case oe.Who != fmt.Sprintf("caller-%d", i):
+				res.Add(fw.Finding{Kind: "monitor", Signature: "typed errors of concurrent calls transport=" + transport + " foreign payload",
+					Detail: fmt.Sprintf("call %d observes another call's error: %v", i, err), Case: map[string]interface{}{"scenario": "errors-own", "transport": transport}})
+			}
+		}
+		scen.WithTimeout(3*time.Second, closer)
 	}
 	return nil
 }
